@@ -127,12 +127,27 @@ def ans(fn):
         return ["raised", type(e).__name__]
 
 
+def occ_full(occ):
+    """occupancy descriptor plus the derived geometry of its shape (vertices of rectangles: lazily computed and
+    cached by the shape object, so reading them is itself a cache-warming query)"""
+    d = occ_desc(occ)
+    if occ is None:
+        return d
+    def verts(sh):
+        if isinstance(sh, Rectangle):
+            return [[float(x) for x in v] for v in np.asarray(sh.vertices).tolist()]
+        if isinstance(sh, ShapeGroup):
+            return [verts(x) for x in sh.shapes]
+        return None
+    return [d, verts(occ.shape)]
+
+
 def obstacle_answers(ob, ts, what=("occ", "state")):
     out = {}
     for t in ts:
         row = []
         if "occ" in what:
-            row.append(ans(lambda: occ_desc(ob.occupancy_at_time(t))))
+            row.append(ans(lambda: occ_full(ob.occupancy_at_time(t))))
         if "state" in what and not isinstance(ob, PhantomObstacle):
             row.append(ans(lambda: state_desc(ob.state_at_time(t))))
         out[t] = row
